@@ -67,8 +67,14 @@ def run(repo, res):
     # ---- the validity predicate ---------------------------------------------------------------------------
     gm = repo.method(PROJECT, 'Project', 'get_module')
     preds = [n for n in ast.walk(gm) if isinstance(n, ast.If) and '.changed' in unparse(n.test)]
-    if len(preds) != 1:
-        raise AnalysisError('get_module: the cache reuse test (m.changed) was not found')
+    if len(preds) > 1:
+        raise AnalysisError('get_module: several cache reuse tests; re-triage C09')
+    reuses = [n for n in ast.walk(gm) if isinstance(n, ast.Subscript) and isinstance(n.ctx, ast.Load)
+              and unparse(n.value) == 'self._module_cache']
+    if reuses:
+        res.check('C09-R3', 'long-lived cache entries are validated before reuse', len(preds) == 1, PROJECT,
+                  reuses[0].lineno, 'get_module reuses an entry of the long-lived _module_cache without testing that the '
+                  'module is unchanged (m.changed): every edit is invisible until the process restarts')
     ch = facts.classes['SourceModule'].lookup('changed')
     if ch is None:
         raise AnalysisError('SourceModule.changed vanished')
